@@ -69,7 +69,7 @@ CHECKS = {
     'C06': dict(
         text='qrwlock (header-only, real lock/unlock/do_lock/try_wake/__trylock*/__unlock_*) with condition_variable and spinlock hand-over as contracts: 2 lockers in W/R, R/W and symbolic modes (3 symbolic lockers in thorough), '
              'timeouts never/finite, every holder yields inside: a writer is alone, readers never share with a writer, a failed lock leaves lock_state free at quiescence, and no locker without deadline is left blocked (deadlock check).  '
-             'qrw_W_R_mv: the two lockers on different vCPUs (pre-emption before every atomic operation).  rwlock (real rwlock::lock / unlock with the real mutex + condition_variable on kernel contract K, waiter marks read from the real wait queue): W/R, R/W and 2 symbolic lockers (3 in thorough), same assertions on rwlock.state.',
+             'qrw_W_R_mv: the two lockers on different vCPUs (pre-emption before every atomic operation).  rwlock (real rwlock::lock / unlock with the real mutex + condition_variable on kernel contract K, waiter marks read from the real wait queue): W/R, R/W and 2 symbolic lockers, same assertions on rwlock.state.',
         note='qrwlock\'s own protocol is real; cv / spinlock re-acquisition are the contracts of rt/ksync.h (their subject is C03).  A lost-wake-up change that needs 4 lockers is caught by the thorough job qrw_W_R_Wt_R only.  Interrupts, try_lock and pre-emption between atomic steps on several vCPUs are outside.',
         technique='bounded-context-switch sequentialisation of the real code (ir2c --thread) + CBMC', design_ref='DESIGN.md §3 C06, §7.1'),
     'C07': dict(
@@ -128,7 +128,7 @@ CHECKS = {
         technique=TECH, design_ref='DESIGN.md §3 C10'),
     'C11': dict(
         text='RPC out-of-order engine (real rpc/out-of-order-execution.cpp: issue_operation / wait_completion / issue_wait, phaselock, leader loop) with mutex / condition_variable / thread_interrupt as contracts and the three callbacks '
-             '(issue, header read = do_completion, body read = do_collect) as harness code with blocking points: 2 concurrent callers on one vCPU, the wire delivers 1 response (quick; 2 in thorough) for either caller or an unknown tag in any order and then fails, '
+             '(issue, header read = do_completion, body read = do_collect) as harness code with blocking points: 2 concurrent callers on one vCPU, the wire delivers 1 response for either caller or an unknown tag in any order and then fails, '
              'per-call deadline never / finite expiring at any blocking point (between header and body included): a successful call holds exactly the payload produced for its own tag, do_collect is only entered for a call that has not returned, the call being collected '
              'does not return while the reader is inside its buffer, every call is unregistered at quiescence.',
         note='Found and fixed (6be8dac): a follower whose deadline expired while the reader was already collecting its response returned ETIMEDOUT at once and the reader went on writing into the dead stack frame (confirmed on the live runtime, harness/C11/native_follower_timeout.cpp).  '
